@@ -233,3 +233,25 @@ Definition hier_both_verdict (c : hier_case) : verdict :=
   | ImplError, _ | _, ImplError => ImplError
   | _, _ => ModelUndefined
   end.
+
+(* ---- C20 and others: observed values against exact expected values / oracle properties ---- *)
+Record val_case := { vc_expected : list QcCf; vc_obs : obs (list QcCf) }.
+
+Definition val_verdict (c : val_case) : verdict :=
+  match vc_obs c with
+  | Raised => ImplError
+  | Obs o => if all2 (cclose tol9) (vc_expected c) o then Agree else Differ
+  end.
+
+Record prop_case := { pc_kinds : list ekind; pc_us : list (list QcCf); pc_obs : obs lmx }.
+
+Definition prop_verdict (c : prop_case) : verdict :=
+  match pc_obs c with
+  | Raised => ImplError
+  | Obs o =>
+      if forallb (fun k => match k with
+                           | ELossless => obs_unitary tol9 o
+                           | EReciprocal => obs_reciprocal tol9 o
+                           | EPassive => obs_passive tol9 o (pc_us c) end) (pc_kinds c)
+      then Agree else Differ
+  end.
